@@ -264,7 +264,7 @@ func runShard(cfg ParentConfig, p *Property, shard, n int) (rep *Report, deaths,
 	os.MkdirAll(dir, 0o755)
 	var skip, big []int64
 	bigTried := map[int64]bool{}
-	for attempt := 0; attempt < 40; attempt++ {
+	for attempt := 0; attempt < 40 && len(deaths) < 12; attempt++ {
 		progress := filepath.Join(dir, "progress")
 		report := filepath.Join(dir, "report.json")
 		os.Remove(report)
@@ -341,6 +341,15 @@ func runShard(cfg ParentConfig, p *Property, shard, n int) (rep *Report, deaths,
 		}
 	}
 	inconcl = append(inconcl, fmt.Sprintf("shard %d: too many worker deaths", shard))
+	if len(deaths) > 0 {
+		// every attributed death is an observed violation in its own right: report them even though the shard did not finish
+		rep = &Report{}
+		for _, d := range deaths {
+			parts := strings.SplitN(d, "\x00", 3)
+			rep.Violations = append(rep.Violations, &Violation{Property: cfg.Property, Sig: parts[0], What: parts[1] + " (shard abandoned after repeated worker deaths)", Count: 1})
+		}
+		return rep, deaths, slow, inconcl
+	}
 	return nil, deaths, slow, inconcl
 }
 
